@@ -7,8 +7,11 @@ package informer
 // what the server saw (open WATCH streams, LIST requests) as Coq terms.
 
 import (
+	"bytes"
 	"encoding/json"
 	"fmt"
+	"io"
+	"net/http"
 	"os"
 	"runtime"
 	"sort"
@@ -34,6 +37,51 @@ import (
 var c18Resources = []verifsim.Resource{
 	{Group: "", Version: "v1", Resource: "pods", Kind: "Pod", Namespaced: true, HasStatus: true},
 	{Group: "apps.example.com", Version: "v1", Resource: "widgets", Kind: "Widget", Namespaced: true, HasStatus: false},
+	// served by the simulator from the start, but hidden from discovery (a CRD that
+	// is "not installed yet") until the harness reveals it: see c18Transport
+	{Group: "apps.example.com", Version: "v1", Resource: "gadgets", Kind: "Gadget", Namespaced: true, HasStatus: false},
+}
+
+const c18LateResource = 2
+
+// c18Transport passes everything to the simulator, but removes the hidden
+// resources from the discovery document of their group/version.
+type c18Transport struct {
+	srv    *verifsim.Server
+	mu     sync.Mutex
+	hidden map[string]bool // plural resource name
+}
+
+func (t *c18Transport) RoundTrip(req *http.Request) (*http.Response, error) {
+	resp, err := t.srv.RoundTrip(req)
+	if err != nil || resp == nil || req.URL.Path != "/apis/apps.example.com/v1" || resp.StatusCode != 200 {
+		return resp, err
+	}
+	body, rerr := io.ReadAll(resp.Body)
+	resp.Body.Close()
+	if rerr != nil {
+		return nil, rerr
+	}
+	var doc map[string]interface{}
+	if json.Unmarshal(body, &doc) == nil {
+		t.mu.Lock()
+		if rs, ok := doc["resources"].([]interface{}); ok {
+			kept := make([]interface{}, 0, len(rs))
+			for _, x := range rs {
+				m, _ := x.(map[string]interface{})
+				name, _ := m["name"].(string)
+				if !t.hidden[strings.SplitN(name, "/", 2)[0]] {
+					kept = append(kept, x)
+				}
+			}
+			doc["resources"] = kept
+		}
+		t.mu.Unlock()
+		body, _ = json.Marshal(doc)
+	}
+	resp.Body = io.NopCloser(bytes.NewReader(body))
+	resp.ContentLength = int64(len(body))
+	return resp, nil
 }
 
 const (
@@ -49,7 +97,7 @@ var c18Once sync.Once
 // ---- operations ----
 
 type c18Op struct {
-	Kind string `json:"kind"` // sub | add | rem | close | ev | tick | addwin
+	Kind string `json:"kind"` // sub | add | rem | close | ev | tick | addwin | remwin | subu | reveal
 	R    int    `json:"r,omitempty"`
 	S    int    `json:"s,omitempty"`
 	H    int    `json:"h,omitempty"`
@@ -80,6 +128,12 @@ func (o c18Op) String() string {
 		return fmt.Sprintf("tick(s%d,h%d)", o.S, o.H)
 	case "addwin":
 		return fmt.Sprintf("addwin(s%d,h%d,blk%d,ev(r%d,%s,o%d))", o.S, o.H, o.Blk, o.R, o.EK, o.O)
+	case "remwin":
+		return fmt.Sprintf("remwin(ev(r%d,%s,o%d),rem(s%d))", o.R, o.EK, o.O, o.S)
+	case "subu":
+		return fmt.Sprintf("subunknown(r%d)", o.R)
+	case "reveal":
+		return fmt.Sprintf("reveal(r%d)", o.R)
 	}
 	return "?"
 }
@@ -100,6 +154,8 @@ func (o c18Op) coq() string {
 		return "(oEv " + z(o.R) + " " + k + " " + z(o.O) + ")"
 	case "tick":
 		return "(oTick " + z(o.S) + " " + z(o.H) + ")"
+	case "subu":
+		return "(oSubU " + z(o.R) + ")"
 	}
 	panic("bad op")
 }
@@ -130,11 +186,17 @@ type c18Del struct {
 	sub, h int
 	kind   byte // 'A' add, 'U' update, 'D' delete, 'S' resync (OnUpdate(obj,obj))
 	obj    int
+	late   bool // received by a handler of subscription lateFor after its RemoveEventHandlers() had returned
 }
 
 type c18Rec struct {
 	mu  sync.Mutex
 	buf []c18Del
+	// removal window (remwin): park, if set, is called (outside the lock) for every
+	// delivery; returned is set once RemoveEventHandlers() of lateFor has returned
+	park     func(c18Del)
+	lateFor  int
+	returned int32
 }
 
 func c18ObjID(obj interface{}) int {
@@ -157,21 +219,28 @@ func (r *c18Rec) put(d c18Del) {
 		return // the harness's barrier marker
 	}
 	r.mu.Lock()
+	if d.sub == r.lateFor && atomic.LoadInt32(&r.returned) == 1 {
+		d.late = true
+	}
 	r.buf = append(r.buf, d)
+	park := r.park
 	r.mu.Unlock()
+	if park != nil {
+		park(d)
+	}
 }
 
 func (r *c18Rec) handler(sub, h int) cache.ResourceEventHandler {
 	return cache.ResourceEventHandlerFuncs{
-		AddFunc: func(obj interface{}) { r.put(c18Del{sub, h, 'A', c18ObjID(obj)}) },
+		AddFunc: func(obj interface{}) { r.put(c18Del{sub: sub, h: h, kind: 'A', obj: c18ObjID(obj)}) },
 		UpdateFunc: func(oldObj, newObj interface{}) {
 			k := byte('U')
 			if oldObj == newObj {
 				k = 'S'
 			}
-			r.put(c18Del{sub, h, k, c18ObjID(newObj)})
+			r.put(c18Del{sub: sub, h: h, kind: k, obj: c18ObjID(newObj)})
 		},
-		DeleteFunc: func(obj interface{}) { r.put(c18Del{sub, h, 'D', c18ObjID(obj)}) },
+		DeleteFunc: func(obj interface{}) { r.put(c18Del{sub: sub, h: h, kind: 'D', obj: c18ObjID(obj)}) },
 	}
 }
 
@@ -204,6 +273,7 @@ type c18World struct {
 	factory   *SharedInformerFactory
 	nres      int
 	sentinels map[*sharedResourceInformer]*c18Sentinel
+	tr        *c18Transport
 }
 
 // c18Sentinel is the harness's completion signal. The informer hands
@@ -229,6 +299,8 @@ func newC18World(nres int) *c18World {
 	c18Once.Do(func() { logging.Logger = logr.Discard() })
 	srv := verifsim.NewServer(c18Resources)
 	cfg := srv.RestConfig()
+	tr := &c18Transport{srv: srv, hidden: map[string]bool{c18Resources[c18LateResource].Resource: true}}
+	cfg.Transport = tr
 	resources := dynamicdiscovery.NewResourceMap(discovery.NewDiscoveryClientForConfigOrDie(cfg))
 	resources.Start(time.Hour)
 	for i := 0; !resources.HasSynced(); i++ {
@@ -242,7 +314,20 @@ func newC18World(nres int) *c18World {
 		panic(err)
 	}
 	return &c18World{srv: srv, resources: resources, factory: NewSharedInformerFactory(clientset, c18Relist), nres: nres,
-		sentinels: map[*sharedResourceInformer]*c18Sentinel{}}
+		sentinels: map[*sharedResourceInformer]*c18Sentinel{}, tr: tr}
+}
+
+// reveal makes discovery serve resource r and waits until the (real) resource
+// map has picked it up.
+func (w *c18World) reveal(r int) bool {
+	w.tr.mu.Lock()
+	delete(w.tr.hidden, c18Resources[r].Resource)
+	w.tr.mu.Unlock()
+	w.resources.Stop()
+	w.resources.Start(time.Hour) // refreshes at once
+	return c18Until(5*time.Second, func() bool {
+		return w.resources.Get(c18Resources[r].APIVersion(), c18Resources[r].Resource) != nil
+	})
 }
 
 func (w *c18World) key(r int) string {
@@ -359,6 +444,7 @@ type c18Runner struct {
 	ownLive map[[2]int]bool // (sub,h) added with own timer and not removed since (the harness's record of its own calls)
 	steps   []c18Step
 	windows []int // indices of event steps emitted inside a replay window
+	goErrs  []string
 }
 
 func (rn *c18Runner) obj(r, o int, rev int) map[string]interface{} {
@@ -408,8 +494,37 @@ func (rn *c18Runner) guarded(st *c18Step, f func()) {
 
 func (rn *c18Runner) do(_ int, op c18Op) {
 	idx := len(rn.steps)
-	if op.Kind == "addwin" {
+	switch op.Kind {
+	case "addwin":
 		rn.addWindow(op)
+		return
+	case "remwin":
+		rn.removeWindow(op)
+		return
+	case "reveal":
+		if !rn.w.reveal(op.R) {
+			rn.goErrs = append(rn.goErrs, fmt.Sprintf("resource %d never appeared in discovery", op.R))
+		}
+		return
+	case "subu":
+		res := c18Resources[op.R]
+		st := c18Step{op: op}
+		var ri *ResourceInformer
+		var err error
+		rn.guarded(&st, func() { ri, err = rn.w.factory.Resource(res.APIVersion(), res.Resource) })
+		if err == nil && !st.panic {
+			rn.goErrs = append(rn.goErrs, fmt.Sprintf("Resource() for %s, unknown to discovery, did not fail", rn.w.key(op.R)))
+			if ri != nil {
+				ri.Close()
+			}
+		}
+		time.Sleep(c18Settle)
+		st.dels = rn.rec.take()
+		for r := 0; r < rn.w.nres; r++ {
+			st.watch = append(st.watch, rn.w.watchCount(r))
+			st.lists = append(st.lists, rn.w.listCount(r))
+		}
+		rn.steps = append(rn.steps, st)
 		return
 	}
 	w := rn.w
@@ -632,6 +747,104 @@ func (rn *c18Runner) addWindow(op c18Op) {
 	}
 }
 
+// removeWindow: the event (R,EK,O) is emitted; the first handler of ANOTHER
+// subscription that receives it parks on a channel, in the middle of the
+// fan-out. Meanwhile RemoveEventHandlers() of subscription S is called from its
+// own goroutine (on the unchanged code it blocks until the fan-out is over) and
+// the moment it returns is recorded; then the parked handler is released.
+// Emitted as two steps: the event with everything that was received, except
+// what the handlers of S received AFTER the removal had returned - that is the
+// content of the RemoveHandlers step, marked as a window.
+func (rn *c18Runner) removeWindow(op c18Op) {
+	w := rn.w
+	evOp := c18Op{Kind: "ev", R: op.R, EK: op.EK, O: op.O}
+	remOp := c18Op{Kind: "rem", S: op.S}
+	st1, st2 := c18Step{op: evOp}, c18Step{op: remOp}
+	entered, release, remDone := make(chan struct{}), make(chan struct{}), make(chan struct{})
+	var once sync.Once
+	rn.rec.mu.Lock()
+	rn.rec.lateFor = op.S
+	atomic.StoreInt32(&rn.rec.returned, 0)
+	rn.rec.park = func(d c18Del) {
+		if d.kind != 'S' && d.obj == op.O && d.sub != op.S {
+			parked := false
+			once.Do(func() { parked = true })
+			if parked {
+				close(entered)
+				<-release
+			}
+		}
+	}
+	rn.rec.mu.Unlock()
+
+	res := c18Resources[op.R]
+	name := fmt.Sprintf("o%d", op.O)
+	sri := w.curSRI(op.R)
+	var stored map[string]interface{}
+	if op.EK == "DELETED" {
+		stored = w.srv.GetLive(res.APIVersion(), res.Kind, c18Namespace, name)
+		if stored == nil {
+			stored = w.srv.Seed(rn.obj(op.R, op.O, len(rn.steps)))
+		}
+		w.srv.RemoveLive(res.APIVersion(), res.Kind, c18Namespace, name)
+	} else {
+		stored = w.srv.Seed(rn.obj(op.R, op.O, len(rn.steps)))
+	}
+	w.srv.Emit(op.EK, stored)
+	inWindow := false
+	select {
+	case <-entered:
+		inWindow = true
+	case <-time.After(2 * time.Second):
+		st1.issues = append(st1.issues, "window-never-entered") // nobody else is registered, or no notification
+	}
+	go func() {
+		defer close(remDone)
+		rn.guarded(&st2, func() { rn.subs[op.S].Informer().RemoveEventHandlers() })
+		atomic.StoreInt32(&rn.rec.returned, 1)
+	}()
+	if inWindow {
+		// a removal that does not wait for the fan-out in progress returns now
+		select {
+		case <-remDone:
+		case <-time.After(25 * time.Millisecond):
+		}
+	}
+	close(release)
+	<-remDone
+	if sri != nil && w.watchCount(op.R) > 0 {
+		if !w.barrier(op.R, sri) {
+			st1.issues = append(st1.issues, "barrier-timeout")
+		}
+	}
+	time.Sleep(c18Settle)
+	rn.rec.mu.Lock()
+	rn.rec.park = nil
+	rn.rec.lateFor = -1
+	rn.rec.mu.Unlock()
+	for _, d := range rn.rec.take() {
+		if d.late {
+			st2.dels = append(st2.dels, d)
+		} else {
+			st1.dels = append(st1.dels, d)
+		}
+	}
+	for k := range rn.ownLive {
+		if k[0] == op.S {
+			rn.ownLive[k] = false
+		}
+	}
+	for r := 0; r < w.nres; r++ {
+		st1.watch = append(st1.watch, w.watchCount(r))
+		st1.lists = append(st1.lists, w.listCount(r))
+	}
+	st2.watch, st2.lists = st1.watch, st1.lists
+	rn.steps = append(rn.steps, st1, st2)
+	if inWindow {
+		rn.windows = append(rn.windows, len(rn.steps)-1)
+	}
+}
+
 func (rn *c18Runner) cleanup() {
 	for _, ri := range rn.subs {
 		func() {
@@ -651,7 +864,7 @@ type c18Result struct {
 
 func c18Run(spec c18Spec) c18Result {
 	w := newC18World(spec.NRes)
-	rn := &c18Runner{w: w, rec: &c18Rec{}, ownLive: map[[2]int]bool{}}
+	rn := &c18Runner{w: w, rec: &c18Rec{lateFor: -1}, ownLive: map[[2]int]bool{}}
 	defer rn.cleanup()
 	var goErrs []string
 	if spec.Conc > 0 {
@@ -669,7 +882,7 @@ func c18Run(spec c18Spec) c18Result {
 			}
 		}
 	}
-	return c18Result{spec: spec, steps: rn.steps, windows: rn.windows, goErrs: goErrs}
+	return c18Result{spec: spec, steps: rn.steps, windows: rn.windows, goErrs: append(goErrs, rn.goErrs...)}
 }
 
 // concurrentSubscribe: k goroutines, released together, call
@@ -778,6 +991,102 @@ func c18WindowSpec(ncache, blk int, sameSub bool, twice bool) c18Spec {
 	ops = append(ops, c18Op{Kind: "ev", R: 0, EK: "MODIFIED", O: ncache},
 		c18Op{Kind: "rem", S: 0}, c18Op{Kind: "close", S: 0}, c18Op{Kind: "ev", R: 0, EK: "DELETED", O: 0}, c18Op{Kind: "close", S: 1})
 	return c18Spec{NRes: 1, Ops: ops, Stream: "replay-window", Features: []string{"replay-window", "shared-informer"}}
+}
+
+// removal-window leg: nPark other subscribers (one handler each) and subscriber
+// B share an informer; B registers first or last; an event is parked inside the
+// first other handler that gets it while B removes its handlers. Afterwards B
+// must stay silent, and gets events again only after adding a new handler.
+func c18RemoveWindowSpec(nPark int, bFirst bool, ek string) c18Spec {
+	n := nPark + 1
+	b := n - 1
+	if bFirst {
+		b = 0
+	}
+	var ops []c18Op
+	for i := 0; i < n; i++ {
+		ops = append(ops, c18Op{Kind: "sub", R: 0})
+	}
+	if ek != "ADDED" {
+		ops = append(ops, c18Op{Kind: "ev", R: 0, EK: "ADDED", O: 0})
+	}
+	for i := 0; i < n; i++ {
+		ops = append(ops, c18Op{Kind: "add", S: i, H: i})
+	}
+	ops = append(ops, c18Op{Kind: "remwin", S: b, R: 0, EK: ek, O: 0},
+		c18Op{Kind: "ev", R: 0, EK: "ADDED", O: 1},
+		c18Op{Kind: "add", S: b, H: n},
+		c18Op{Kind: "ev", R: 0, EK: "MODIFIED", O: 1})
+	for i := 0; i < n; i++ {
+		ops = append(ops, c18Op{Kind: "close", S: i})
+	}
+	return c18Spec{NRes: 1, Ops: ops, Stream: "removal-window", Features: []string{"removal-window", "shared-informer"}}
+}
+
+// unknown-resource family: Resource() for a resource discovery does not know
+// fails (any number of times, before or between other operations); once the
+// resource is known the usual life cycle must work: subscribe, close (informer
+// stopped), subscribe again (fresh informer).
+func c18UnknownSpec(r *vh.Rng, seed uint64) c18Spec {
+	g := newC18Gen(3, 2, false)
+	late := c18LateResource
+	hidden := true
+	pickRes := func() int {
+		if r.Chance(7, 10) {
+			return late
+		}
+		return 0
+	}
+	subscribe := func(a, res int) {
+		if res == late && hidden {
+			g.ops = append(g.ops, c18Op{Kind: "subu", R: res})
+			g.feat["failed-subscribe"] = true
+			return
+		}
+		if g.actorMoveOK(a, 0) {
+			g.actorMove(a, 0, res)
+		}
+	}
+	n := 5 + r.Intn(8)
+	revealAt := 1 + r.Intn(4)
+	if r.Chance(1, 8) {
+		revealAt = 1000 // never
+	}
+	for guard := 0; len(g.ops) < n && guard < 500; guard++ {
+		if hidden && len(g.ops) >= revealAt {
+			g.ops = append(g.ops, c18Op{Kind: "reveal", R: late})
+			hidden = false
+			continue
+		}
+		if r.Chance(1, 5) {
+			g.event(pickRes(), c18EventKinds[r.Intn(3)], r.Intn(2))
+			continue
+		}
+		a := r.Intn(2)
+		mv := []int{0, 0, 0, 1, 1, 3, 4, 4, 4}[r.Intn(9)]
+		switch {
+		case mv == 0 || g.slotSub[a] < 0:
+			if a > 0 && g.slotSub[0] < 0 {
+				a = 0
+			}
+			subscribe(a, pickRes())
+		case g.actorMoveOK(a, mv):
+			g.actorMove(a, mv, 0)
+		}
+	}
+	// close what is open, then the life cycle once more on the late resource
+	for a := 0; a < 2; a++ {
+		if g.slotSub[a] >= 0 && !g.slotClosed[a] {
+			g.actorMove(a, 4, 0)
+		}
+	}
+	if !hidden {
+		g.actorMove(0, 0, late)
+		g.actorMove(0, 1, 0)
+		g.event(late, "ADDED", 1)
+		g.actorMove(0, 4, 0)
+	}
+	return g.spec("unknown-resource", seed)
 }
 
 func c18ConcurrentSpec(round, k int, full bool) c18Spec {
@@ -1128,6 +1437,10 @@ func c18Corpus() []c18Spec {
 		mk(2, nil, sub(0), sub(1), add(0, 0), add(1, 1), ev(0, "ADDED", 0), ev(1, "ADDED", 1), cl(0), ev(0, "ADDED", 1), ev(1, "DELETED", 1), cl(1)),
 		// odd events: MODIFIED of an unknown object, DELETED of an unknown object, ADDED twice
 		mk(1, nil, sub(0), add(0, 0), ev(0, "MODIFIED", 0), ev(0, "DELETED", 1), ev(0, "ADDED", 0), ev(0, "DELETED", 0), cl(0)),
+		// a resource discovery does not know yet: Resource() fails and must leave nothing behind;
+		// once known: subscribe, close (stopped), subscribe again (fresh), close
+		mk(3, []string{"failed-subscribe", "resubscribe-after-last-close"}, c18Op{Kind: "subu", R: 2}, c18Op{Kind: "subu", R: 2}, c18Op{Kind: "reveal", R: 2},
+			sub(2), add(0, 0), ev(2, "ADDED", 0), cl(0), ev(2, "ADDED", 1), sub(2), add(1, 1), ev(2, "MODIFIED", 0), cl(1)),
 		// a stale own timer (informer stopped, handlers never removed) keeps replaying the old cache
 		mk(1, []string{"own-timer"}, sub(0), ev(0, "ADDED", 0), addown(0, 0), cl(0), ev(0, "ADDED", 1), tick(0, 0), sub(0), addown(1, 1), tick(1, 1), rem(0), tick(0, 0), cl(1)),
 	}
@@ -1294,6 +1607,32 @@ func TestVerif_C18(t *testing.T) {
 					}
 				}
 			}
+		}
+		// removal-window leg (both tiers): RemoveEventHandlers() while a fan-out is parked
+		rrounds := 2
+		if env.Tier == "thorough" {
+			rrounds = 10
+		}
+		wn = 0
+		for round := 0; round < rrounds; round++ {
+			for nPark := 1; nPark <= 3; nPark++ {
+				for _, bFirst := range []bool{false, true} {
+					for _, ek := range []string{"ADDED", "MODIFIED", "DELETED"} {
+						push(fmt.Sprintf("rw%d", wn), c18RemoveWindowSpec(nPark, bFirst, ek))
+						wn++
+					}
+				}
+			}
+		}
+		// unknown-resource family (both tiers): failed Resource() calls
+		nu := 150
+		if env.Tier == "thorough" {
+			nu = 2000
+		}
+		uroot := vh.NewRng(env.Seed ^ 0xc18e)
+		for i := 0; i < nu; i++ {
+			r, seed := uroot.Fork()
+			push(fmt.Sprintf("u%d", i), c18UnknownSpec(r, seed))
 		}
 		// sampled part: the bigger spaces
 		n := env.N
